@@ -349,7 +349,7 @@ func genC03esc(g *G) {
 		}
 	}
 	// chains x modes on a rotating subset of strings
-	nch := g.N(2500, 60000)
+	nch := g.N(2500, 150000)
 	for i := 0; i < nch; i++ {
 		var s []byte
 		if g.R.Chance(1, 2) {
@@ -364,7 +364,7 @@ func genC03esc(g *G) {
 		}
 		g.Add(escCase("print", s, escHasSpecial(s), append([]string{g.R.Pick(escModes), g.R.Pick(escModes)}, ch...)...))
 	}
-	nr := g.N(1500, 40000)
+	nr := g.N(1500, 100000)
 	for i := 0; i < nr; i++ {
 		s := escRandString(g.R)
 		nt := escHasSpecial(s)
@@ -424,7 +424,7 @@ func genC16dir(g *G) {
 		}
 	}
 	// random strings
-	nr := g.N(2500, 70000)
+	nr := g.N(2500, 20000)
 	for i := 0; i < nr; i++ {
 		s := escRandString(g.R)
 		nt := len(s) > 0
